@@ -280,7 +280,9 @@ def render_key(spec, row, n):
 def key_fields(spec):
     if isinstance(spec, (list, tuple)):
         return list(spec)
-    return re.findall(r'\{(.*?)\}', spec)
+    import string
+    # the field a replacement field refers to: without conversion (!s), format spec (:03), attribute or index part
+    return [re.split(r'[.\[]', name, 1)[0] for _, name, _, _ in string.Formatter().parse(spec) if name]
 
 
 class AnyOf:
@@ -320,7 +322,7 @@ def aggregate(agg, group, name, name_given=True):
         return None
     if agg == 'sum':
         if isinstance(nn[0], str):
-            return EitherOf(''.join(nn), ''.join(reversed(nn)))
+            return ''.join(nn)      # "for strings the concatenation of strings": in source order, like array
         t = nn[0]
         for v in nn[1:]:
             t = t + v
